@@ -12,6 +12,7 @@ EXPLANATION = (
     "lock in both append and resize; every public read API of Store reaches no write/file/map/shared-memory effect; a query opens exactly one read transaction, outside every loop, and nothing it reaches opens another. "
     "Linearizability, exactly-one-winner and reader-prefix consistency themselves are not decided; LMDB MVCC is trusted.")
 EXPLANATION += " Also decided: the LMDB environment is not opened with NO_LOCK (the single-writer mutex and the reader table every clause above relies on stay in force)."
+EXPLANATION += ' Also decided: every verdict about stored state (Duplicate, Replaced, Deleted, InvalidDelete) of store_event is formed behind the acquisition of the write transaction.'
 ASSUMPTIONS = ["LMDB allows one write transaction at a time and gives readers a snapshot (MVCC)"]
 
 
@@ -21,6 +22,7 @@ def run(ctx):
     for root in ("pocket_db::Store::store_event", "pocket_db::Store::remove_event"):
         txn.single_write_txn_first(ctx, s, root)
         txn.effects_use_callers_txn(ctx, s, root)
+    txn.verdicts_under_writer(ctx, s, "pocket_db::Store::store_event")
     storage.gating_checks_use_write_txn(ctx, s)
     storage.append_index_commit_order(ctx, s, "pocket_db::Store::store_event")
     storage.appender_callers(ctx, s)
